@@ -251,6 +251,20 @@ impl FixtureDatabase {
         hasher.finish()
     }
 
+    /// Check if a file lives in a `site-packages` directory.
+    /// For a file inside the workspace only the part of the path below the workspace root
+    /// counts, so that where the workspace itself is kept does not change the answer.
+    pub(crate) fn is_in_site_packages(&self, file_path: &Path) -> bool {
+        let workspace = self.workspace_root.lock().unwrap();
+        let relevant = workspace
+            .as_deref()
+            .and_then(|ws| file_path.strip_prefix(ws).ok())
+            .unwrap_or(file_path);
+        relevant
+            .components()
+            .any(|c| c.as_os_str() == "site-packages")
+    }
+
     /// Check if a file path is inside an editable install that is NOT within the workspace.
     /// Returns true if the file is from an external editable install (third-party).
     pub(crate) fn is_editable_install_third_party(&self, file_path: &Path) -> bool {
